@@ -7,7 +7,8 @@ from .common import Out, import_mbi
 ID = 'C03'
 RULE = ('Hypothesis draws a domain (2-4 attrs, sizes 1-4, joint <= 200 cells), 1-5 measurements (overlapping / nested / '
         'cyclic / duplicated / re-ordered projections; queries none, identity, sparse, dense Gaussian, prefix, operator, '
-        'total; independent noise scales in [0.1,10]), y = Q x_true + noise, total known or omitted, solver in {MD,RDA,IG}. '
+        'total; independent noise scales in [0.1,10]), y = Q x_true + noise, total known or omitted, solver in {MD,RDA,IG}; '
+        '40% of cases are preceded by unrelated estimation activity on another engine (L1 / RDA / warm IG) in the same process. '
         'Oracle: own accelerated projected-gradient solver on the scaled simplex with a Frank-Wolfe duality-gap '
         'certificate f_lo <= f* <= f_hi. Loss is recomputed from model.project answers. Violations: loss below f_lo, loss '
         'above the uniform start, or a plateau above the optimum after escalating iterations (500, 2000, 8000). '
@@ -23,11 +24,33 @@ def cases(draw, tier='quick'):
     case = draw(inf.est_cases(min_attrs=2, max_attrs=4, max_size=4, min_size=draw(st.sampled_from([2, 2, 2, 1])), cap=200 if tier == 'quick' else 600, min_m=1, max_m=5 if tier == 'quick' else 7, zeros=False, iters=(500,),
                               totals=(1.0, 10, 1000.0, 37.5, None)))
     case['stepsize'] = None
+    # other estimation activity earlier in the same process (another engine, another problem): must not matter
+    case['prior'] = draw(st.sampled_from([None] * 6 + ['l1_md', 'l1_md_step', 'l2_rda', 'l2_ig_warm']))
     return case
 
 
 def strategy(tier):
     return cases(tier)
+
+
+def prior_activity(mbi, kind):
+    """A small unrelated estimation on a separate engine object.  'l1_md' is the combination the library rejects with an
+    assertion (L1 needs an explicit step size): a rejected call is part of a realistic process history too."""
+    dom = mbi.Domain(['p', 'q'], [2, 3])
+    meas = [(np.eye(2), np.array([3.0, 6.5]), 1.0, ('p',)), (np.eye(3), np.array([1.0, 5.0, 4.0]), 2.0, ('q',)),
+            (np.eye(6), np.array([1.0, 1.0, 1.0, 0.0, 4.0, 3.0]), 1.5, ('p', 'q'))]
+    if kind == 'l1_md':
+        try:
+            mbi.FactoredInference(dom, metric='L1', iters=3).estimate(meas, total=10.0)
+        except AssertionError:
+            pass
+    elif kind == 'l1_md_step':
+        mbi.FactoredInference(dom, metric='L1', iters=3).estimate(meas, total=10.0, options={'stepsize': 0.01})
+    elif kind == 'l2_rda':
+        mbi.FactoredInference(dom, iters=3).estimate(meas, total=10.0, engine='RDA')
+    elif kind == 'l2_ig_warm':
+        e = mbi.FactoredInference(dom, iters=3, warm_start=True)
+        e.estimate(meas[:2], engine='IG'); e.estimate(meas, engine='IG')
 
 
 def attempt(mbi, case, domain, meas, iters):
@@ -54,6 +77,9 @@ def run_case(case):
         out.classes.append('no_usable_measurements'); return out
     domain = mbi.Domain(attrs, shape)
     A, b = inf.stacked(meas, attrs, shape)
+    if case.get('prior'):
+        prior_activity(mbi, case['prior'])
+        out.classes.append('prior:' + case['prior'])
     excess = []
     thetas = []
     model = None
